@@ -74,6 +74,17 @@ def check_restart(case, workdir):
         return r.fail("uninterrupted run failed: rc=%s timeout=%s: %s" % (
             ra["rc"], ra["timeout"], ra["out"][-400:].replace("\n", " | ")))
     sa = steps_of(a)
+    if ("Prematurely stopping simulation" in ra["out"] and sa
+            and sorted(sa) == list(range(1, len(sa) + 1)) and len(sa) < N):
+        # documented behaviour: a requested time step below the configured
+        # minimum ends the run (the generated flow blew up).  The comparison is
+        # done for the steps that exist; the restarted chain has to end at the
+        # same step.
+        r.label("premature-stop(time-step-below-minimum)")
+        N = len(sa)
+        stops = [k for k in stops if k < N]
+        if not stops:
+            return r
     if sorted(sa) != list(range(1, N + 1)):
         return r.fail("uninterrupted run recorded steps %s, expected 1..%d" % (sorted(sa), N))
     first = True
